@@ -79,7 +79,9 @@ func (r *Router) Match(method HTTPMethod, path string) (*Route, map[string]strin
 		if !matched {
 			continue
 		}
-		if best == nil || len(params) < len(bestParams) {
+		// Count parameter segments, not distinct names: /:x/:x captures two
+		// segments and must not tie with /a/:y.
+		if best == nil || len(node.paramNames) < len(best.paramNames) {
 			best, bestParams = node, params
 		}
 	}
